@@ -188,6 +188,18 @@ class HandleGen(object):
             vn = vns[int(r.integers(0, len(vns)))]
         name = str(r.choice(NAMES[:int(r.choice([2, 3, 5, 7]))]))
         civ = self.uid("ci")
+        if vc["civars"] and r.random() < 0.15:
+            # replace a calibration under the very string vnacal_get_name
+            # returns for it (the model resolves the name from the index)
+            old = vc["civars"][int(r.integers(0, len(vc["civars"])))][0]
+            # (not bound to a variable: the driver skips the call when the
+            # slot is empty)
+            self.s.op("vnacal_add_calibration_own_name $%s $%s $%s"
+                      % (vcname, old, vn.name))
+            vn.solved_after_last_add = False
+            self.s.op("vnacal_get_name $%s $%s" % (vcname, old))
+            self.s.op("dump_vnacal $%s" % vcname)
+            return True
         ln = self.s.op("%s=vnacal_add_calibration $%s %s $%s" % (
             civ, vcname, qs(name.encode("latin-1")), vn.name))
         self.addcals[ln] = dict(sc=vn.sc, kappa=vn.kappa,
